@@ -100,10 +100,10 @@ Definition prefix_needs_temp (p : expr) : bool :=
   | _ => true
   end.
 
-(** does the key need one; note that an interpolated string counts as a literal here *)
+(** does the key need one (an interpolated string does: its segments may have side effects) *)
 Definition key_needs_temp (k : expr) : bool :=
   match k with
-  | EFalse | EIdent _ | ENumber _ | ENil | EInterp _ | EString _ | ETrue | EVarArgs => false
+  | EFalse | EIdent _ | ENumber _ | ENil | EString _ | ETrue | EVarArgs => false
   | EParen inner => negb (is_simple_literal inner)
   | _ => true
   end.
